@@ -831,6 +831,12 @@ TryArms(c, node, v, i, j) ==
                      arm.guard)
               ELSE Ev([c EXCEPT !.env = r.env], arm.b)
 
+(* The loop has consumed its iterable.  Value: null if the body never ran, else not said.  The loop
+   variables after the loop: not said either (they become bottom). *)
+RECURSIVE BotAll(_, _, _)
+BotAll(env, names, i) == IF i > Len(names) THEN env ELSE BotAll(Bind(env, names[i], VBot), names, i + 1)
+ForDone(c, f) == Rt([c EXCEPT !.env = BotAll(@, f.node.vars, 1)], IF f.n = 0 THEN VNull ELSE VBot)
+
 ForBody(c, f, v) ==    \* bind the loop variables to element v and run the body (f not yet pushed)
     LET node == f.node
         c1 == IF Len(node.vars) = 1
@@ -852,7 +858,7 @@ LoopNext(c, f) ==     \* next iteration of the loop whose frame f has just been 
       [] node.k = "for" /\ f.it.k = "itr" -> Pull(Push(c, [f EXCEPT !.ph = "pull"]), f.it.a)
       [] node.k = "for" ->
             (LET r == IterNext(c, f.it) IN
-             IF ~r.more THEN Rt(c, IF f.n = 0 THEN VNull ELSE VBot)   \* never ran => null; else unspecified
+             IF ~r.more THEN ForDone(c, f)
              ELSE ForBody(c, [f EXCEPT !.it = r.it], r.v))
 
 RECURSIVE SumSeq(_, _, _, _)
@@ -899,7 +905,7 @@ Return(c, v) ==
              ELSE IF f.node.has_else THEN Ev(c0, f.node.e)
              ELSE Rt(c0, VNull))
       [] f.k = "loop" /\ f.ph = "pull" ->
-            (IF v.t = "end" THEN Rt(c0, IF f.n = 0 THEN VNull ELSE VBot)
+            (IF v.t = "end" THEN ForDone(c0, f)
              ELSE IF v.t = "out" THEN ForBody(c0, f, v.v) ELSE Unspec(c, "pull-signal"))
       [] f.k = "nextk" ->
             (IF v.t = "end" THEN Rt(c0, VNull)
@@ -935,7 +941,11 @@ Return(c, v) ==
       [] f.k = "matchg" ->
             (IF IsBot(v) THEN Unspec(c, "guard-bot")
              ELSE IF Truthy(v) THEN Ev(c0, f.node.arms[f.i].b)
-             ELSE IF f.j < Len(f.node.arms[f.i].pats) THEN Unspec(c, "guard-with-alternatives")
+             \* the guard belongs to the arm: when it fails the arm is not taken.  Whether a later alternative
+             \* of the same arm that also matches gets its own chance is not said => abstain in that case only.
+             ELSE IF \E j2 \in (f.j + 1) .. Len(f.node.arms[f.i].pats) :
+                        MatchPat(c0, f.node.arms[f.i].pats[j2], f.v, c0.env).r # "n"
+                  THEN Unspec(c, "guard-with-alternatives")
              ELSE TryArms(c0, f.node, f.v, f.i + 1, 1))
       [] f.k = "loop" ->
             (IF f.ph = "cond" THEN
@@ -984,7 +994,7 @@ Unwind(c) ==
     LET ctl == c.ctl IN
     IF c.kont = <<>> THEN
         (CASE ctl.m = "thr" -> [c EXCEPT !.ctl = [m |-> "done", st |-> "err", cls |-> ctl.cls, v |-> ctl.v,
-                                                   kind |-> ctl.kind, trace |-> ctl.trace]]
+                                                   kind |-> ctl.kind, trace |-> ctl.trace, at |-> ctl.at]]
            [] ctl.m = "ret" -> [c EXCEPT !.ctl = [m |-> "done", st |-> "ok", v |-> ctl.v]]
            [] OTHER -> Unspec(c, "loop-control-outside-loop"))
     ELSE
@@ -1017,12 +1027,19 @@ Unwind(c) ==
 (***************************************************************************)
 (* The transition function.                                                *)
 (***************************************************************************)
+(* Ghost for diagnostics (C12): the node whose rule raised the error. *)
+NodeOfStep(c) ==
+    IF c.ctl.m = "ev" THEN c.ctl.n.id
+    ELSE IF c.kont # <<>> /\ "node" \in DOMAIN Head(c.kont) THEN Head(c.kont).node.id
+    ELSE 0
+
 Step(c) ==
-    LET c1 == [c EXCEPT !.n = @ + 1] IN
-    CASE c.ctl.m = "ev" -> Eval(c1, c.ctl.n)
-      [] c.ctl.m = "rt" -> Return(c1, c.ctl.v)
-      [] c.ctl.m \in {"brk", "cnt", "ret", "thr"} -> Unwind(c1)
-      [] c.ctl.m = "done" -> c
+    LET c1 == [c EXCEPT !.n = @ + 1]
+        c2 == CASE c.ctl.m = "ev" -> Eval(c1, c.ctl.n)
+                [] c.ctl.m = "rt" -> Return(c1, c.ctl.v)
+                [] c.ctl.m \in {"brk", "cnt", "ret", "thr"} -> Unwind(c1)
+                [] c.ctl.m = "done" -> c
+    IN IF c2.ctl.m = "thr" /\ ~("at" \in DOMAIN c2.ctl) THEN [c2 EXCEPT !.ctl = [at |-> NodeOfStep(c)] @@ @] ELSE c2
 
 (* dev: the set of named deviations (known findings modelled as the code behaves) that are enabled;
    used: those whose rule was actually taken in this run. *)
@@ -1045,7 +1062,7 @@ Outcome0(c) ==
          value |-> IF Observable(c.store, c.ctl.v, 6) THEN Disp(c.store, c.ctl.v, FALSE) ELSE "",
          vtype |-> TypeName(c, c.ctl.v)]
     ELSE [status |-> "err", out |-> c.out, steps |-> c.n, cls |-> c.ctl.cls, kind |-> c.ctl.kind,
-          msg |-> IF c.ctl.v.t = "str" THEN c.ctl.v.v ELSE "", trace |-> c.ctl.trace]
+          msg |-> IF c.ctl.v.t = "str" THEN c.ctl.v.v ELSE "", trace |-> c.ctl.trace, at |-> c.ctl.at]
 SetToSeq(S) == LET RECURSIVE F(_) 
                     F(T) == IF T = {} THEN <<>> ELSE LET x == CHOOSE x \in T : TRUE IN <<x>> \o F(T \ {x})
                 IN F(S)
